@@ -295,6 +295,19 @@ def check_addition(H, desc, thunk=None):
     # an automatic single addition must really add (Hypergraph / DiHypergraph)
     if exc is None and desc.get("idx", 0) is None and desc["call"] == "add_edge" and len(order1) != len(order0) + 1:
         fails.append(("auto-add-dropped", f"add_edge with automatic id did not add an edge ({len(order0)} -> {len(order1)} edges; warned={warned})"))
+    # an addition with a NEW explicit id that returns without a warning must have created exactly that edge
+    if (exc is None and not warned and desc["call"] in ("add_edge", "add_simplex") and desc.get("idx") is not None
+            and repr(desc["idx"]) not in tab0 and not present and not isinstance(desc["idx"], float)):
+        ms = desc["members"]
+        want = ([sorted(map(repr, set(ms[0]))), sorted(map(repr, set(ms[1])))] if isinstance(H, xgi.DiHypergraph)
+                else sorted(map(repr, set(ms))))
+        key = next((k for k in tab1 if k == repr(desc["idx"])), None)
+        if desc["call"] == "add_simplex" and not desc["members"]:
+            pass
+        elif key is None:
+            fails.append(("added-edge-missing", f"{desc['call']}(idx={desc['idx']!r}) returned but the id is not an edge"))
+        elif tab1[key][0] != want:
+            fails.append(("added-edge-wrong-members", f"{desc['call']}({ms}, idx={desc['idx']!r}) but edge {desc['idx']!r} has members {tab1[key][0]}"))
     # an explicit existing id: refused with a warning, network unchanged
     if desc["call"] in ("add_edge", "add_simplex") and desc.get("idx") is not None and repr(desc["idx"]) in tab0:
         if exc is None and not warned and not present:
